@@ -1050,3 +1050,58 @@ Proof.
   destruct (noop_append_abs _ _ _ _ _ Hr Hp Hb A5) as (B1 & B2 & B3 & _).
   exists L', T', X'. rewrite B1, B2, Habs, Hli. repeat split; assumption.
 Qed.
+
+(* ================================================================== *)
+(* 9. a concrete healthy three-voter cluster (the states of RaftProofsC17, with
+      heartbeat_timeout 3 so that no heartbeat falls into the three rounds) *)
+Definition cx_leader : raft := ex_leader <| r_heartbeat_timeout := 3 |>.
+Definition cx_target : raft := ex_follower 2 <| r_heartbeat_timeout := 3 |>.
+Definition cx_third : raft := ex_follower 3 <| r_heartbeat_timeout := 3 |>.
+Definition cx_request : msg := ex_tl_msg 2.
+Definition cx_after_request : raft :=
+  match step cx_leader cx_request with Ok (r, _) => r | Panic _ => cx_leader end.
+
+Lemma cx_start : Start cx_leader cx_target cx_third [1; 2; 3].
+Proof.
+  constructor; try (vm_compute; reflexivity); try (vm_compute; discriminate).
+  - repeat constructor; cbn; intuition discriminate.
+  - left; reflexivity.
+  - right; left; reflexivity.
+  - right; right; left; reflexivity.
+  - eexists. split; vm_compute; reflexivity.
+  - intros d ds H. vm_compute in H. inversion H. reflexivity.
+  - intros d ds H. vm_compute in H. inversion H. reflexivity.
+  - intros d ds H. vm_compute in H. inversion H. reflexivity.
+Qed.
+
+(* the records unfolded, for the pinned statements *)
+Lemma VoteReq_unfold id li lt t p to x : VoteReq id li lt t p to x <->
+  (m_type x = MsgRequestVote /\ m_to x = to /\ m_term x = t /\ m_from x = id /\
+   m_index x = li /\ m_log_term x = lt /\ m_context x = CAMPAIGN_TRANSFER /\ get_priority x = p).
+Proof.
+  split.
+  - intros [A B C0 D E F G H]. repeat split; assumption.
+  - intros (A & B & C0 & D & E & F & G & H). constructor; assumption.
+Qed.
+
+Lemma Start_unfold L T X vs : Start L T X vs ->
+  (r_id L <> r_id T /\ r_id L <> r_id X /\ r_id T <> r_id X) /\
+  (NoDup vs /\ length vs = 3%nat /\ In (r_id L) vs /\ In (r_id T) vs /\ In (r_id X) vs /\
+   incoming (conf_of T) = vs /\ outgoing (conf_of T) = []) /\
+  (is_leader L = true /\ r_lead_transferee L = None /\
+   r_state T = Follower /\ r_term T = r_term L /\ r_promotable T = true /\
+   r_state X = Follower /\ r_term X = r_term L) /\
+  ((exists pr, get_pr L (r_id T) = Some pr /\ matched pr = last_index (r_log L)) /\
+   IdSet.mem (r_id T) (learners (conf_of L)) = false) /\
+  (last_index (r_log L) = last_index (r_log T) /\ last_index (r_log X) = last_index (r_log T) /\
+   last_term (r_log L) = last_term (r_log T) /\ last_term (r_log X) = last_term (r_log T) /\
+   committed (r_log T) <= applied (r_log T)) /\
+  ((r_priority L <= r_priority T)%Z /\ (r_priority X <= r_priority T)%Z) /\
+  (r_msgs L = [] /\ r_msgs T = [] /\ r_msgs X = []) /\
+  (1 < r_election_timeout L /\ r_heartbeat_elapsed L + 1 < r_heartbeat_timeout L /\
+   1 < r_election_timeout T /\ 1 < r_heartbeat_timeout T /\
+   r_election_elapsed X + 1 < r_randomized_election_timeout X /\
+   (forall d ds, r_draws L = d :: ds -> 2 < d) /\
+   (forall d ds, r_draws T = d :: ds -> 2 < d) /\
+   (forall d ds, r_draws X = d :: ds -> 2 < d)).
+Proof. intros []. repeat split; assumption. Qed.
